@@ -1,3 +1,4 @@
+-- NOTE (round 7): sharper constants and partial absolute bounds are in FF17Abs.lean / FF17AbsB.lean; the reduction of the 11/9 gap is in FFD119Gap.lean / FFD119GapB.lean.
 /-
   PrtpyProofs.FF17 — property C09: first fit and best fit use at most `1.7 · OPT + 1` bins
   (the classical asymptotic bound of Ullman 1971 / Garey, Graham, Johnson, Yao 1976 is `1.7 · OPT + 2`;
